@@ -74,7 +74,7 @@ Definition enc_vm_outcome (o : vm_outcome) : sx :=
     (1 pre_consts pre_names program old?) -> (0 ((opcode arg) ...) (const ...) (name ...)) | (-1000-site)  Codegen.compile
                                              after a prelude with the given pools; old? = 1 selects ValueObj's == pool lookup
     (2 pre_consts pre_names program)      -> (status (line ...))   VM.exec of the model's code; -995 = stuck
-    (3 program)                           -> (all_in_fragment wraps_ok known_marshal_nat known_nat_cast known_enum_arith known_quote_ambiguity known_float_unify known_enum_guard)
+    (3 program)                           -> (all_in_fragment wraps_ok known_marshal_nat known_nat_cast known_enum_arith known_quote_ambiguity known_float_unify known_enum_guard known_expr_guard_cast)
     (4 fuel program status (line ...))    -> 0/1                   Spec_C01.judge
     any mode: (-997) when the program does not decode *)
 Definition run (x : sx) : sx :=
@@ -105,7 +105,7 @@ Definition run (x : sx) : sx :=
     | Some p =>
       SL [sx_bool (forallb (stmt_in_frag) p); sx_bool (prog_wraps_okb [] p);
           sx_bool (known_marshal_nat p); sx_bool (known_nat_cast p); sx_bool (known_enum_arith p);
-          sx_bool (known_quote_ambiguity p); sx_bool (known_float_unify p); sx_bool (known_enum_guard p)]
+          sx_bool (known_quote_ambiguity p); sx_bool (known_float_unify p); sx_bool (known_enum_guard p); sx_bool (known_expr_guard_cast p)]
     | None => SL [SZ (-997)]
     end
   else if mode =? 4 then
